@@ -183,8 +183,8 @@ def idinfo(doc):
             continue
         warned = any(isinstance(c, nodes.system_message) for c in n.children) or isinstance(n, nodes.problematic) \
             or any(isinstance(c, nodes.problematic) for c in n.children)
-        if n.get("ids") or n.get("refid") or n.get("backrefs"):
-            rows.append({"k": n.tagname, "ids": list(n.get("ids", [])), "refid": n.get("refid", "") or "",
+        if n.get("ids") or "refid" in n or n.get("backrefs"):
+            rows.append({"k": n.tagname, "ids": list(n.get("ids", [])), "refid": (n["refid"] or "<empty refid>") if "refid" in n else "",
                          "backrefs": list(n.get("backrefs", [])), "warned": bool(warned)})
     return rows
 
